@@ -118,3 +118,48 @@ Proof.
     + destruct (Nat.ltb (length dq) SMOL_Q_LEN); [|discriminate].
       destruct (IH _ _ _ E) as [-> ->]. split; [reflexivity|]. rewrite <- app_assoc. reflexivity.
 Qed.
+
+(* clear_released_chords: every active chord whose status is Released leaves the list in this tick and its release event
+   (Release of its virtual coordinate) is handed to the layout, in list order; no other chord is touched *)
+Definition is_released (a : active_chord) : bool := match ac_status a with AReleased => true | _ => false end.
+Definition release_event (a : active_chord) : queued := {| q_press := false; q_coord := (0, ac_coord a); q_since := 0 |}.
+
+Lemma clear_fold : forall achs dq dq',
+  fold_left (fun acc a =>
+               dq0 <- acc ;;
+               match ac_status a with
+               | AReleased =>
+                   if Nat.ltb (length dq0) SMOL_Q_LEN
+                   then Ok (dq0 ++ [{| q_press := false; q_coord := (0, ac_coord a); q_since := 0 |}])
+                   else Panic "chords v2: overflowed drain queue"
+               | _ => Ok dq0
+               end) achs (Ok dq) = Ok dq' ->
+  dq' = dq ++ map release_event (filter is_released achs).
+Proof.
+  induction achs as [|a r IH]; intros dq dq' E; cbn [fold_left] in E.
+  - injection E as <-. cbn. rewrite app_nil_r. reflexivity.
+  - cbn [bind] in E. cbn [filter]. unfold is_released at 1.
+    destruct (ac_status a) eqn:Es; try (cbn [map]; apply IH; exact E).
+    destruct (Nat.ltb (length dq) SMOL_Q_LEN).
+    + rewrite (IH _ _ E). cbn [map]. rewrite <- app_assoc. reflexivity.
+    + exfalso. clear -E. induction r as [|b r IH]; cbn [fold_left] in E; [discriminate|]. cbn [bind] in E. apply IH. exact E.
+Qed.
+
+Theorem released_chords_are_cleared c layer c' dq' :
+  tick_chv2 c layer = Ok (c', dq') ->
+  Forall (fun a => is_released a = false) (cv_active c') /\
+  exists c1 dq, cv_active c' = filter (fun a => negb (is_released a)) (cv_active c1) /\
+                dq' = dq ++ map release_event (filter is_released (cv_active c1)).
+Proof.
+  unfold tick_chv2. intros E.
+  match type of E with context [drain_inputs ?x [] layer] => destruct (drain_inputs x [] layer) as [[c1 dq0]| |] end;
+    cbn [bind] in E; try discriminate.
+  match type of E with (dq' <- fold_left ?f ?l (Ok ?d) ;; _) = _ => destruct (fold_left f l (Ok d)) as [dq1| |] eqn:Ef end;
+    cbn [bind] in E; try discriminate.
+  injection E as <- <-. cbn [cv_active set_cv_ignore set_cv_active].
+  split.
+  - apply Forall_forall. intros a Ha. apply filter_In in Ha. destruct Ha as [_ Ha]. unfold is_released. destruct (ac_status a); try reflexivity; discriminate.
+  - eexists c1, _. split.
+    + apply filter_ext. intros a. unfold is_released. destruct (ac_status a); reflexivity.
+    + exact (clear_fold _ _ _ Ef).
+Qed.
